@@ -218,7 +218,8 @@ pub fn initial_store(scen: &Scenario) -> Result<Store, String> {
             }
             Ok(s)
         }
-        o => Err(format!("instantiate of scenario {} failed: {}", scen.name, o.short())),
+        // the scenario's configuration is refused: nothing to explore here (C13 decides whether it should have been accepted)
+        o => Err(format!("SKIP: instantiate of scenario {} was not carried out: {}", scen.name, o.short())),
     }
 }
 
